@@ -39,7 +39,7 @@ def negfn(ev):
 def boundary_values(t, rng):
     kind, n = t[:1], int(t[1:4])
     if kind == "L":
-        return ["0", "1"]
+        return ["0", "1", "2", "255"]  # a boolean stored as U1: every 8-bit value is in the type's range
     if kind in "UE":
         top = 1 << (8 * n)
         return ["0", "1", str(top - 1), str(top // 2), str(rng.randrange(top))]
